@@ -101,7 +101,7 @@ func checkSig(ctx *pbt.Ctx, c SigCase) error {
 
 func TestSigPrograms(t *testing.T) {
 	pbt.Run(t, pbt.Sub[SigCase]{
-		Name: "sigprograms", Quick: 24000, Thorough: 600000,
+		Name: "sigprograms", Quick: 60000, Thorough: 1200000,
 		Gen: func(t *rapid.T) SigCase {
 			p := sgen.SigScripts(t)
 			return SigCase{Unlock: p.Unlock, Lock: p.Lock, Flags: uint32(p.Flags), Tx: p.Tx, Idx: p.Idx, Amount: p.Amount, Desc: p.Desc}
